@@ -140,6 +140,39 @@ def run(ctx):
             cases.append(AppCase(['stats'], (), g=g, env=e, cfg=cfgd, files=files, disk=True,
                                  meta={'kind': 'load:today', 'setting': 'today', 'flag': flag, 'env': False, 'cfg': cfg, 'where': where, 'winner': 'flag' if flag else 'cfg',
                                        'expect': ('contains', ('  Today:              %s\n' % want).encode())}))
+    # interactions: dates on the command line are read in the effective date format, whatever its source
+    for fsrc in ('flag', 'env', 'cfg', 'default'):
+        for where in (('default', 'flag', 'env') if fsrc == 'cfg' else ('none',)):
+            g, e = {'noColor': True}, {}
+            entries = {}
+            if fsrc == 'flag':
+                g['dateFormat'] = LAYOUT['flag']
+            elif fsrc == 'env':
+                e['dateFormat'] = LAYOUT['env']
+            elif fsrc == 'cfg':
+                entries['DateFormat'] = LAYOUT['cfg']
+            cfgd = None
+            if fsrc == 'cfg':
+                cfgd = {'where': where, 'path': 'my.cfg', 'exists': True, 'entries': entries}
+                if where == 'flag':
+                    g['config'] = 'my.cfg'
+                elif where == 'env':
+                    e['config'] = 'my.cfg'
+            lay = LAYOUT[fsrc]
+            today = datetime.date(2021, 5, 6)
+            files = {b'food.yaml': b'', b'log.yaml': ('%s:\n  a: 1\n%s:\n  b: 2\n' % (fmt(datetime.date(2021, 5, 5), lay), fmt(today, lay))).encode()}
+            g1 = dict(g, today=fmt(today, lay))
+            cases.append(AppCase(['stats'], (), g=g1, env=e, cfg=cfgd, files=files, disk=True,
+                                 meta={'kind': 'load:today-in-format', 'setting': 'today x date-format', 'flag': True, 'env': fsrc == 'env', 'cfg': 'set' if fsrc == 'cfg' else 'absent', 'where': where,
+                                       'winner': fsrc, 'expect': ('contains', ('  Today:              %s\n' % fmt(today, lay)).encode())}))
+            g2 = dict(g1, begin='today')
+            cases.append(AppCase(['csv', 'log'], (), g=g2, env=e, cfg=cfgd, files=files, disk=True,
+                                 meta={'kind': 'load:begin-today-in-format', 'setting': 'begin x today x date-format', 'flag': True, 'env': fsrc == 'env', 'cfg': 'set' if fsrc == 'cfg' else 'absent', 'where': where,
+                                       'winner': fsrc, 'expect': ('out', b'2021-05-06,b,2.000\n')}))
+            g3 = dict(g, today=fmt(today, lay), end=fmt(datetime.date(2021, 5, 5), lay))
+            cases.append(AppCase(['csv', 'log'], (), g=g3, env=e, cfg=cfgd, files=files, disk=True,
+                                 meta={'kind': 'load:end-in-format', 'setting': 'end x date-format', 'flag': True, 'env': fsrc == 'env', 'cfg': 'set' if fsrc == 'cfg' else 'absent', 'where': where,
+                                       'winner': fsrc, 'expect': ('out', b'2021-05-05,a,1.000\n')}))
     # explicitly named configuration file that does not exist
     for where in ('flag', 'env'):
         g, e = {'noColor': True, 'today': '2021/01/28'}, {}
